@@ -177,7 +177,11 @@ class Run:
             name = "val-" + os.path.basename(sh).replace(".trace", "").replace(".", "-")
             notes_path = sh + ".notes"
             cfg = "SPECIFICATION Spec\nPOSTCONDITION TraceDone\nCHECK_DEADLOCK FALSE\n"
-            rc, text, path = self.tlc("Trace", cfg, name, env={"TRACE": sh, "NOTES": notes_path}, xmx="6g", xss="256m")
+            rc, text, path = self.tlc("Trace", cfg, name, env={"TRACE": sh, "NOTES": notes_path}, xmx=xmx, xss="256m")
+            if (rc < 0 or "OutOfMemoryError" in text) and not os.path.exists(notes_path):
+                # killed (memory pressure from other jobs on the machine) or out of heap: once more, alone, with the large heap
+                with retry_lock:
+                    rc, text, path = self.tlc("Trace", cfg, name + "-retry", env={"TRACE": sh, "NOTES": notes_path}, xmx="6000m", xss="256m")
             if rc != 0 or not os.path.exists(notes_path):
                 raise Infra("trace validation %s failed (rc %s); see %s\n%s" % (name, rc, path, tail(text)))
             rows = [json.loads(x) for x in open(notes_path) if x.strip()]
@@ -188,7 +192,12 @@ class Run:
             return rows[1:], summ
 
         t0 = time.time()
-        with ThreadPoolExecutor(max_workers=NCPU) as ex:
+        # heap per validator by the largest shard; as many validators at once as the memory that is free right now allows
+        big = max([os.path.getsize(sh) for sh in shards] or [0])
+        heap_mb = 6000 if (self.tier == "thorough" or big > 60e6) else 2500
+        xmx = "%dm" % heap_mb
+        par = max(2, min(NCPU, int(mem_available_mb() * 0.75 / (heap_mb + 300))))
+        with ThreadPoolExecutor(max_workers=par) as ex:
             for (rows, summ) in ex.map(one, shards):
                 notes += rows
                 events += summ["lines"]
@@ -198,6 +207,20 @@ class Run:
                     self.cover[pk] = self.cover.get(pk, 0) + cnt
         log("validated %d events in %.1fs, %d notes" % (events, time.time() - t0, len(notes)))
         return notes, events
+
+
+import threading
+retry_lock = threading.Lock()
+
+
+def mem_available_mb():
+    try:
+        for line in open("/proc/meminfo"):
+            if line.startswith("MemAvailable:"):
+                return int(line.split()[1]) // 1024
+    except OSError:
+        pass
+    return 32000
 
 
 def tail(text, n=25):
